@@ -260,8 +260,16 @@ class SoftwareManager:
             return
         main_receiver = self.port_protocol_mapping.get((port, protocol), None)
         if main_receiver and main_receiver.operating_state not in running:
-            # software that is not running does not handle payloads
-            main_receiver = None
+            # software that is not running does not handle payloads: other running software bound to the same port
+            # and protocol does
+            main_receiver = next(
+                (
+                    s
+                    for s in self.software.values()
+                    if (s.port, s.protocol) == (port, protocol) and s.operating_state in running
+                ),
+                None,
+            )
         if main_receiver:
             main_receiver.receive(
                 payload=payload, session_id=session_id, from_network_interface=from_network_interface, frame=frame
